@@ -18,6 +18,10 @@ pub trait Acc: Copy + core::fmt::Debug + core::fmt::Display {
     fn reads() -> Vec<&'static str>;
     fn read(&self, kind: usize) -> Vec<Self::E>;
     fn constants() -> Vec<(&'static str, Self, Vec<Self::E>)>;
+    /// further read paths that exist only for some types (conversions that carry the lanes into another vector type)
+    fn extra_reads(&self) -> Vec<(&'static str, Vec<Self::E>)> {
+        vec![]
+    }
     fn debug_name() -> &'static str {
         Self::NAME
     }
@@ -107,9 +111,46 @@ macro_rules! kind_consts {
     (unsigned, $N:tt, $T:ty, $S:ty, $v:ident) => {};
 }
 
+macro_rules! extra_reads {
+    // the padded type: every conversion that moves its three lanes elsewhere must ignore the unused fourth lane, whatever
+    // earlier writes left there
+    (Vec3A, $s:expr) => {{
+        let v: glam::Vec3A = $s;
+        let t = <f32 as Elem>::tag(9);
+        let a = glam::Vec4::from((v, t)).to_array();
+        let b = glam::Vec4::from((t, v)).to_array();
+        let e = v.extend(t).to_array();
+        let mut buf = [t; 7];
+        v.write_to_slice(&mut buf[2..]);
+        vec![
+            ("Vec4::from((Vec3A, f32))", a[..3].to_vec()),
+            ("Vec4::from((f32, Vec3A))", b[1..].to_vec()),
+            ("extend", e[..3].to_vec()),
+            ("Vec3::from", glam::Vec3::from(v).to_array().to_vec()),
+            ("write_to_slice(longer, offset)", buf[2..5].to_vec()),
+            ("Vec3A == rebuilt", if v == glam::Vec3A::from_array(v.to_array()) || v.to_array().iter().any(|x| x.is_nan()) { v.to_array().to_vec() } else { vec![t; 3] }),
+        ]
+    }};
+    (Vec3, $s:expr) => {{
+        let v: glam::Vec3 = $s;
+        let t = <f32 as Elem>::tag(9);
+        vec![("Vec4::from((Vec3, f32))", glam::Vec4::from((v, t)).to_array()[..3].to_vec()), ("Vec3A::from", glam::Vec3A::from(v).to_array().to_vec()), ("extend", v.extend(t).to_array()[..3].to_vec())]
+    }};
+    (Vec4, $s:expr) => {{
+        let v: glam::Vec4 = $s;
+        vec![("truncate", { let mut x = v.truncate().to_array().to_vec(); x.push(v.w); x }), ("Vec3A::from_vec4", { let mut x = glam::Vec3A::from_vec4(v).to_array().to_vec(); x.push(v.w); x }), ("Into<(Vec3A, f32)>-like", { let (a, w): (glam::Vec3A, f32) = (glam::Vec3A::from_vec4(v), v.w); let mut x = a.to_array().to_vec(); x.push(w); x })]
+    }};
+    ($T:ident, $s:expr) => {
+        vec![]
+    };
+}
+
 macro_rules! impl_acc {
     ($T:ident, $S:ty, $N:tt, $free:ident, $kind:tt) => {
         impl Acc for $T {
+            fn extra_reads(&self) -> Vec<(&'static str, Vec<$S>)> {
+                extra_reads!($T, *self)
+            }
             type E = $S;
             const N: usize = $N;
             const NAME: &'static str = stringify!($T);
@@ -124,7 +165,8 @@ macro_rules! impl_acc {
                     3 => { let a: [$S; $N] = core::array::from_fn(|k| l[k]); <$T>::from(a) }
                     4 => tuple_from!($N, $T, l),
                     5 => free_from!($N, $free, l),
-                    6 => { let mut v: Vec<$S> = l[..$N].to_vec(); v.push(<$S as Elem>::tag(13)); v.push(<$S as Elem>::tag(14)); <$T>::from_slice(&v) }
+                    // a longer slice that does not start on a 16-byte boundary (whole-register loads must be unaligned loads)
+                    6 => { let mut v: Vec<$S> = vec![<$S as Elem>::tag(12)]; v.extend_from_slice(&l[..$N]); v.push(<$S as Elem>::tag(13)); v.push(<$S as Elem>::tag(14)); <$T>::from_slice(&v[1..]) }
                     _ => { let mut s = <$T>::splat(l[0]); for k in 1..$N { s[k] = l[k]; } s }
                 }
             }
@@ -147,7 +189,7 @@ macro_rules! impl_acc {
                     0 => fields_get!($N, self),
                     1 => (0..$N).map(|k| self[k]).collect(),
                     2 => self.to_array().to_vec(),
-                    3 => { let mut buf = [<$S as Elem>::tag(15); $N]; self.write_to_slice(&mut buf); buf.to_vec() }
+                    3 => { let mut buf = [<$S as Elem>::tag(15); $N + 3]; self.write_to_slice(&mut buf[1..]); buf[1..$N + 1].to_vec() }
                     4 => { let a: [$S; $N] = (*self).into(); a.to_vec() }
                     5 => tuple_into!($N, $S, (*self)),
                     _ => { let a: &[$S; $N] = self.as_ref(); a.to_vec() }
@@ -224,7 +266,7 @@ macro_rules! impl_acc_quat {
                     2 => <$T>::from_slice(&l[..4]),
                     3 => <$T>::from_vec4(<$V4>::new(l[0], l[1], l[2], l[3])),
                     4 => glam::$free(l[0], l[1], l[2], l[3]),
-                    _ => { let mut v: Vec<$S> = l[..4].to_vec(); v.push(<$S as Elem>::tag(13)); <$T>::from_slice(&v) }
+                    _ => { let mut v: Vec<$S> = vec![<$S as Elem>::tag(12)]; v.extend_from_slice(&l[..4]); v.push(<$S as Elem>::tag(13)); <$T>::from_slice(&v[1..]) }
                 }
             }
             fn writes() -> Vec<&'static str> {
@@ -240,7 +282,7 @@ macro_rules! impl_acc_quat {
                 match kind {
                     0 => fields_get!(4, self),
                     1 => self.to_array().to_vec(),
-                    2 => { let mut buf = [<$S as Elem>::tag(15); 4]; self.write_to_slice(&mut buf); buf.to_vec() }
+                    2 => { let mut buf = [<$S as Elem>::tag(15); 7]; self.write_to_slice(&mut buf[1..]); buf[1..5].to_vec() }
                     3 => { let a: [$S; 4] = (*self).into(); a.to_vec() }
                     4 => tuple_into!(4, $S, (*self)),
                     5 => { let a: &[$S; 4] = self.as_ref(); a.to_vec() }
@@ -281,6 +323,17 @@ fn check_all<T: Acc>(c: &mut OpCtx, v: &T, model: &[T::E], hist: &dyn Fn() -> St
         let got = v.read(ri);
         let gb: Vec<u64> = got.iter().map(|x| x.bits()).collect();
         if gb.len() != n || gb != mb {
+            if c.wants_witness("read_mismatch", &[rn]) {
+                c.violation("read_mismatch", &[rn], hist(), show_v(&got), show_v(model), format!("read path {} disagrees with the lane model", rn));
+            } else {
+                c.st.violations += 1;
+            }
+            return false;
+        }
+    }
+    for (rn, got) in v.extra_reads() {
+        let gb: Vec<u64> = got.iter().map(|x| x.bits()).collect();
+        if gb != mb {
             if c.wants_witness("read_mismatch", &[rn]) {
                 c.violation("read_mismatch", &[rn], hist(), show_v(&got), show_v(model), format!("read path {} disagrees with the lane model", rn));
             } else {
